@@ -74,6 +74,37 @@ def generate (g : StrGen) (n : Int) (ws : List Nat) : GenRes :=
     | none => .panic
     | some (need', acc') => genWords g need' ws acc'
 
+/-! ### linear-time versions (reversed accumulator), used by the driver;
+`c20_str_fast_eq` proves them equal to the definitions above -/
+
+def chunksR (g : StrGen) : Nat → Nat → Nat → List Int → Option (Nat × List Int)
+  | 0, _, _, acc => some (0, acc)
+  | need + 1, _, 0, acc => some (need + 1, acc)
+  | need + 1, cache, remain + 1, acc =>
+    let idx := cache &&& g.charIdxMask
+    if idx < g.charSet.length then
+      match g.charSet[idx]? with
+      | none => none
+      | some r => chunksR g need (cache >>> g.charIdxBits) remain (r :: acc)
+    else chunksR g (need + 1) (cache >>> g.charIdxBits) remain acc
+
+def genWordsR (g : StrGen) : Nat → List Nat → List Int → GenRes
+  | 0, ws, acc => .done acc.reverse ws
+  | _ + 1, [], _ => .exhausted
+  | need + 1, w :: ws, acc =>
+    match chunksR g (need + 1) w g.charIdxMax acc with
+    | none => .panic
+    | some (need', acc') => genWordsR g need' ws acc'
+
+def generateFast (g : StrGen) (n : Int) (ws : List Nat) : GenRes :=
+  if n < 0 then .panic else
+  match ws with
+  | [] => .exhausted
+  | w :: ws =>
+    match chunksR g n.toNat w g.charIdxMax [] with
+    | none => .panic
+    | some (need', acc') => genWordsR g need' ws acc'
+
 /-! ### driver -/
 
 def strStep (g : StrGen) (ts : List String) : Option String :=
@@ -82,7 +113,7 @@ def strStep (g : StrGen) (ts : List String) : Option String :=
     match n.toInt?, nats? ws with
     | some n, some ws =>
       if ws.any (fun w => w ≥ 2^63) then some "bad-op" else
-      match generate g n ws with
+      match generateFast g n ws with
       | .panic => some "panicked"   -- `Generate(n<0)` panics in `buf.Grow`; the generator is untouched and stays usable
       | .exhausted => some "exhausted"
       | .done out rest => some s!"{hex (Utf8.encode out)} {ws.length - rest.length}"
